@@ -646,6 +646,15 @@ class Parser:
                 self.expect(";")
                 stmts.append(N("lconst", name=name, dty=ty, e=e))
                 continue
+            if self.at("use"):
+                j = self.i
+                while not self.at(";"):
+                    if self.peek().k == "eof" or (self.peek().k == "p" and self.peek().v in "{}*") or self.at("as"):
+                        raise Refuse("`use` inside a function body (other than a plain `use path::Name;`)")
+                    self.i += 1
+                stmts.append(N("use", name=self.t[self.i - 1].v))
+                self.i += 1
+                continue
             for kw in ("fn", "struct", "enum", "impl", "use", "static", "loop", "while", "for", "mod", "trait", "type"):
                 if self.at(kw):
                     raise Refuse(f"`{kw}` inside a function body")
@@ -767,7 +776,21 @@ class Parser:
         if self.at("true") or self.at("false"):
             self.i += 1
             return N("bool", v=(x.v == "true"))
-        for kw in ("loop", "while", "for", "break", "continue", "move", "async", "|", "||"):
+        if self.at("|"):
+            # a closure `|pattern, …| body` (only accepted as the argument of Option::map / and_then, see infer_mcall)
+            self.i += 1
+            ps = []
+            while not self.at("|"):
+                ps.append(self.parse_pat_atom())
+                if self.eat(":"):
+                    self.parse_type()          # an annotation restates what rustc has inferred
+                if not self.eat(","):
+                    break
+            self.expect("|")
+            if self.at("->"):
+                raise Refuse("closure with a declared result type")
+            return N("closure", params=ps, body=self.parse_expr())
+        for kw in ("loop", "while", "for", "break", "continue", "move", "async", "||"):
             if self.at(kw):
                 raise Refuse(f"`{kw}` (loops / closures are outside the subset)")
         if x.k == "id":
@@ -1744,6 +1767,13 @@ class FnFront:
                 v = self.gen.ceval(s.e, self.item.mod, self.item.owner, self, dt)
                 self.gen.check_const(v, dt, s.name)
                 self.lconsts[s.name] = (dt, v)
+            elif s.k == "use":
+                # importing a name that is nothing of the translated files (an external trait such as
+                # `num_traits::FromPrimitive`) cannot change what a path of this body refers to here
+                nm = s.name
+                if nm in self.crate.adts or nm in self.crate.gadts or any(k_[2] == nm for k_ in self.crate.consts) \
+                        or any(k_[2] == nm and k_[0] is None and k_[1] is None for k_ in self.crate.fns) or nm in env:
+                    raise Refuse(f"`use …::{nm}` inside a function body shadows a translated item")
             elif s.k == "estmt":
                 t = self.infer(s.e, env)
                 if T.res(t) == NEVER:
@@ -1935,6 +1965,18 @@ class FnFront:
                 return tr_
             raise Refuse(f"integer method `{name}` is outside the subset")
         if tr_[0] == "opt":
+            if name in ("map", "and_then") and len(e.args) == 1 and e.args[0].k == "closure":
+                c = e.args[0]
+                if len(c.params) != 1:
+                    raise Refuse(f"Option::{name} with a closure that does not take one argument")
+                if has_escape(c.body):
+                    raise Refuse("`return` / `?` inside a closure")
+                # exactly the definition of Option::map / Option::and_then, with the closure body in place of the call
+                some = N("call", path=["Some"], args=[c.body]) if name == "map" else c.body
+                inner = N("ptstruct", path=["Some"], pats=[c.params[0]])
+                e.k, e.e = "match", e.recv
+                e.arms = [(inner, None, some), (N("ppath", segs=["None"]), None, N("path", segs=["None"]))]
+                return self._infer(e, env, exp)
             if name in ("is_some", "is_none") and not e.args:
                 e.res = ("isopt", name == "is_some")
                 return BOOL
@@ -2852,7 +2894,7 @@ class FnTrans:
             if s.pat.k == "pbind":
                 h = self.declare(s.pat.name, env)[0]
             return self.tr(s.init, env, lambda v: self.at_depth(depth, lambda: self.bind_pat(s.pat, v, t, env, rest)), h)
-        if s.k == "lconst":
+        if s.k in ("lconst", "use"):
             return rest(env)
         if s.k == "estmt":
             return self.tr(s.e, env, lambda _v: rest(env))
@@ -3480,6 +3522,17 @@ TARGETS = (
     + [("src/datetime/mod.rs", inst, f) for inst in ["DateTime<Utc>", "DateTime<FixedOffset>"] for f in DT_BOTH]
     + [("src/offset/mod.rs", None, "from_utc_datetime", "TimeZone", z) for z in ["Utc", "FixedOffset"]]
     + [("src/offset/local/tz_info/rule.rs", None, f) for f in ["is_leap_year", "days_since_unix_epoch"]]
+    + [("src/naive/date/mod.rs", "NaiveDate", "from_isoywd_opt")]
+    + [("src/naive/date/mod.rs", "NaiveDate", f, "Datelike") for f in
+       ["iso_week", "month0", "day0", "ordinal0", "year", "month", "day", "ordinal", "weekday"]]
+    + [("src/naive/isoweek.rs", "IsoWeek", f) for f in ["year", "week", "week0"]]
+    + [("src/traits.rs", None, f, "Datelike", "NaiveDate") for f in ["year_ce", "quarter", "num_days_in_month"]]
+    + [("src/month.rs", "Month", "num_days")]
+    + [("src/naive/mod.rs", "NaiveWeek", f) for f in ["checked_days", "days"]]
+    + [("src/naive/datetime/mod.rs", "NaiveDateTime", f, "Datelike") for f in
+       ["with_year", "with_month", "with_month0", "with_day", "with_day0", "with_ordinal", "with_ordinal0"]]
+    + [("src/naive/datetime/mod.rs", "NaiveDateTime", f, "Timelike") for f in
+       ["with_hour", "with_minute", "with_second", "with_nanosecond"]]
 )
 
 
